@@ -1,5 +1,6 @@
 import EduceModel.Props.C09
 import EduceModel.Spec.Into
+import EduceModel.Generated.Templates
 /-
   C10 — Into returns the designated field for every requested target type.
 -/
@@ -430,5 +431,18 @@ example : (item exIntoType 7).toOption.bind (fun it => Sem.evalInto exIntoOps ex
 example : (item exIntoType 7).toOption.bind (fun it => Sem.evalInto exIntoOps exIntoType it ⟨2, [6]⟩) = some 7006 := by decide
 -- two fields of the target type and no marker: refused
 example : (item (.struct { shape := .tuple, fields := [ { ty := 7 }, { ty := 7 } ] }) 7).toOption = none := by decide
+
+
+/-! ## What the generated code calls
+
+The absolute paths (`::core::..`) named by the `quote!` templates of the handler, regenerated from /repo/src on every run
+(`vtool extract`): the functions, traits and types the generated code can reach are exactly these - a call of anything
+else (`::core::ptr::eq`, `::core::fmt::Display::fmt`, `::core::convert::From::from`, ...) is a change of what the
+implementation does and has to be looked at. -/
+
+theorem generated_calls_unchanged_into :
+    Generated.paths_trait_handlers_into =
+      ["::core::convert::Into", "::core::convert::Into::into"] := by
+  decide +kernel
 
 end Educe
